@@ -50,7 +50,7 @@ type w1RepGen struct{ rep, gen int }
 
 type w1Oracle struct {
 	marker    map[w1AT]int // workload applied the marker of (a,T) to this agent generation
-	uniq      map[w1UniqKey][]int64 // values the workload sent for a unique-kind key, per contributing (agent, second)
+	uniq      map[w1UniqKey][]int64 // values the workload sent for a unique-kind key, per reporting agent
 	wire      map[w1AT]*w1Payload   // the payload carrying the workload rows of (a,T), once seen on the wire
 	payloads  map[string]*w1Payload // by content
 	acked     map[w1AT]bool
@@ -63,6 +63,9 @@ type w1Oracle struct {
 	intactDelivered map[w1AT]int  // copies of the second's marker payload that reached an aggregator handler undamaged
 	intactAccepted  map[w1AT]int  // ... and were accepted into a bucket (long poll started)
 	corruptSeen     map[w1AT]int  // damaged copies that reached an aggregator handler
+
+	filed    map[w1RepGen]map[w1AT]map[string]bool // aggregator buckets ("recent:T" / "historic:T") a replica process filed an agent bucket in
+	deferred []w1Fail                              // reported at the end of the run, if nothing else failed
 
 	primarySeen map[uint32]int
 	spareSeen   [3]map[uint32]int // owner -> second -> receiving replica
@@ -84,6 +87,7 @@ func (o *w1Oracle) init(w *w1World) {
 	o.intactDelivered = map[w1AT]int{}
 	o.intactAccepted = map[w1AT]int{}
 	o.corruptSeen = map[w1AT]int{}
+	o.filed = map[w1RepGen]map[w1AT]map[string]bool{}
 	o.primarySeen = map[uint32]int{}
 	for i := range o.spareSeen {
 		o.spareSeen[i] = map[uint32]int{}
@@ -93,15 +97,16 @@ func (o *w1Oracle) init(w *w1World) {
 
 func (w *w1World) noteMarkerGen(a int, T uint32, gen int) { w.or.marker[w1AT{a, T}] = gen }
 
-// w1UniqKey: one row key (full tuple: time, metric, every int and string tag) inside the bucket of
-// one (agent, second).
+// w1UniqKey: one row key (full tuple: the row's own time, metric, every int and string tag) as
+// reported by one agent. The workload reports such a key within one second only, so all its values
+// travel in one agent bucket, whichever second that bucket belongs to.
 type w1UniqKey struct {
-	at  w1AT
+	a   int
 	key string
 }
 
-func (o *w1Oracle) noteUnique(a int, T uint32, key string, vals []int64) {
-	k := w1UniqKey{w1AT{a, T}, key}
+func (o *w1Oracle) noteUnique(a int, key string, vals []int64) {
+	k := w1UniqKey{a, key}
 	o.uniq[k] = append(o.uniq[k], vals...)
 }
 
@@ -358,6 +363,16 @@ func (o *w1Oracle) process(w *w1World, rec *w1Rec) (fails []w1Fail) {
 			}
 			break
 		}
+		if rec.where == "recent" || rec.where == "historic" {
+			rg := w1RepGen{rec.replica, rec.repGen}
+			if o.filed[rg] == nil {
+				o.filed[rg] = map[w1AT]map[string]bool{}
+			}
+			if o.filed[rg][at] == nil {
+				o.filed[rg][at] = map[string]bool{}
+			}
+			o.filed[rg][at][fmt.Sprintf("%s:%d", rec.where, rec.bucketTime)] = true
+		}
 		switch rec.where {
 		case "answered":
 			w.r.Probes["c10_answered_before_read"]++
@@ -461,10 +476,14 @@ func (o *w1Oracle) process(w *w1World, rec *w1Rec) (fails []w1Fail) {
 	return fails
 }
 
-// checkBody is the C03 oracle for one insert body (stored or not).
+// checkBody is the C03 oracle for one insert body (stored or not). Rows and wire contributions are
+// grouped by the row's OWN timestamp (an event stamped older than the second it is reported in
+// travels in a later agent bucket and is inserted with its own time): key = (row time, metric, every
+// int and string tag, string-top).
 func (o *w1Oracle) checkBody(w *w1World, rec *w1Rec) (fails []w1Fail) {
+	where := fmt.Sprintf("body of r%d.g%d at %s: ", rec.replica+1, rec.repGen, w.ms(rec.at))
 	fail := func(clause, sig, f string, args ...any) {
-		fails = append(fails, w1Fail{"C03", clause, sig, fmt.Sprintf("body of r%d.g%d at %s: ", rec.replica+1, rec.repGen, w.ms(rec.at)) + fmt.Sprintf(f, args...)})
+		fails = append(fails, w1Fail{"C03", clause, sig, where + fmt.Sprintf(f, args...)})
 	}
 	b := rec.body
 	if b.parseErr != "" {
@@ -477,22 +496,22 @@ func (o *w1Oracle) checkBody(w *w1World, rec *w1Rec) (fails []w1Fail) {
 		fail("harness_budget_binds", "sampling", "the aggregator sampled workload metrics %v: the budgets of the world are too small", b.sampled)
 		return
 	}
-	rows := map[string]*w1Row{}
+	rows := map[string][]*w1Row{}
 	for i := range b.rows {
 		row := &b.rows[i]
-		k := row.key()
-		if rows[k] != nil {
-			fail("duplicate_key", w1MetricNames[row.metric], "key %s appears twice", k)
-			return
-		}
-		rows[k] = row
+		rows[row.key()] = append(rows[row.key()], row)
 	}
-	// merge counts per (agent, second): the marker's counter
+	// merge counts per (agent, second): the marker's counter (marker events never carry a skewed timestamp)
 	merged := map[w1AT]float64{}
-	for _, row := range rows {
-		if row.metric != w1MetricMarker {
+	for k, rs := range rows {
+		if rs[0].metric != w1MetricMarker {
 			continue
 		}
+		if len(rs) > 1 {
+			fail("duplicate_key", w1MetricNames[w1MetricMarker], "key %s appears %d times", k, len(rs))
+			return
+		}
+		row := rs[0]
 		if !w1IsInt(row.count) || row.count < 1 {
 			fail("aggregates", "marker", "marker row %s has count %v", row.key(), row.count)
 			return
@@ -506,6 +525,7 @@ func (o *w1Oracle) checkBody(w *w1World, rec *w1Rec) (fails []w1Fail) {
 		hosts                                  map[string]bool
 		uniq                                   map[int64]bool
 		metric                                 int32
+		buckets                                map[string]bool // aggregator buckets of this replica process that received a contribution
 	}
 	want := map[string]*exp{}
 	var ats []w1AT
@@ -518,6 +538,7 @@ func (o *w1Oracle) checkBody(w *w1World, rec *w1Rec) (fails []w1Fail) {
 		}
 		return ats[i].a < ats[j].a
 	})
+	filed := o.filed[w1RepGen{rec.replica, rec.repGen}]
 	for _, at := range ats {
 		p := o.wire[at]
 		if p == nil {
@@ -538,8 +559,14 @@ func (o *w1Oracle) checkBody(w *w1World, rec *w1Rec) (fails []w1Fail) {
 		for k, c := range p.items {
 			e := want[k]
 			if e == nil {
-				e = &exp{hosts: map[string]bool{}, uniq: map[int64]bool{}}
+				e = &exp{hosts: map[string]bool{}, uniq: map[int64]bool{}, buckets: map[string]bool{}}
 				want[k] = e
+			}
+			if len(filed[at]) == 0 {
+				e.buckets[fmt.Sprintf("unobserved:%v", at)] = true // answered before the white-box read: any bucket
+			}
+			for bk := range filed[at] {
+				e.buckets[bk] = true
 			}
 			e.count += n * c.count
 			if c.valueSet {
@@ -557,7 +584,7 @@ func (o *w1Oracle) checkBody(w *w1World, rec *w1Rec) (fails []w1Fail) {
 			e.hosts[c.host] = true
 			if c.hasUniq {
 				e.hasUniq = true
-				vals, ok := o.uniq[w1UniqKey{at, k}]
+				vals, ok := o.uniq[w1UniqKey{at.a, k}]
 				if !ok {
 					fail("unknown_contribution", "unique", "the payload of %v carries a unique state under key %s, for which the workload sent no unique values", at, k)
 					return
@@ -572,59 +599,118 @@ func (o *w1Oracle) checkBody(w *w1World, rec *w1Rec) (fails []w1Fail) {
 	for k := range want {
 		keys = append(keys, k)
 	}
-	for k := range rows {
-		if want[k] == nil {
+	for k, rs := range rows {
+		if want[k] == nil && rs[0].metric != w1MetricMarker {
 			keys = append(keys, k)
 		}
 	}
 	sort.Strings(keys)
 	for _, k := range keys {
-		e, row := want[k], rows[k]
+		e, rs := want[k], rows[k]
 		switch {
 		case e == nil:
-			fail("unexpected_row", w1MetricNames[row.metric], "row %s is in the body but no merged agent bucket carried that key", k)
+			fail("unexpected_row", w1MetricNames[rs[0].metric], "row %s is in the body but no merged agent bucket carried that key", k)
 			continue
-		case row == nil:
+		case len(rs) == 0:
 			fail("missing_row", "row", "key %s was carried by a merged agent bucket but the body has no row for it", k)
 			continue
 		}
-		name := w1MetricNames[row.metric]
-		if row.count != e.count || row.maxCount != e.count {
-			fail("aggregates", name+":count", "row %s: count=%v max_count=%v, merge of contributions gives %v", k, row.count, row.maxCount, e.count)
+		name := w1MetricNames[rs[0].metric]
+		if len(rs) > 1 {
+			// (i) "each key exactly once". One aggregator bucket holds one item per key, so more rows than
+			// buckets that received the key means a bucket wrote the key twice. As many rows as buckets or
+			// fewer: the contributions sat in several buckets (the recent one and historic ones, possible
+			// only for rows that carry an older timestamp than their agent bucket) that went into ONE
+			// insert unmerged. Both break (i); the second is kept apart (own clause, reported at the end
+			// of the run so that it cannot hide any other failure) because it has one known cause.
+			if len(rs) > len(e.buckets) {
+				fail("duplicate_key", name, "key %s appears %d times; its contributions were filed in %d bucket(s) of this aggregator: %v", k, len(rs), len(e.buckets), w1SortedSet(e.buckets))
+				return
+			}
+			w.r.Probes["c03_key_in_several_buckets_of_one_insert"]++
+			o.deferred = append(o.deferred, w1Fail{"C03", "duplicate_key_across_buckets", "several_buckets_in_one_insert",
+				where + fmt.Sprintf("key %s appears %d times: its contributions were filed in %d different buckets of this aggregator %v, all inserted by this one body, each with its own row for the key (partial count/min/max/sum per row)", k, len(rs), len(e.buckets), w1SortedSet(e.buckets))})
+		}
+		// the rows of the key taken together (one row unless the case above)
+		var count, sum, sumsq, centroidWeight float64
+		min, max := rs[0].min, rs[0].max
+		var uniqSum, uniqMax uint64
+		uniqItems, centroids := 0, 0
+		for _, row := range rs {
+			count += row.count
+			sum += row.sum
+			sumsq += row.sumsq
+			if row.min < min {
+				min = row.min
+			}
+			if row.max > max {
+				max = row.max
+			}
+			centroidWeight += row.centroidWeight
+			centroids += row.centroids
+			uniqSum += row.uniq
+			if row.uniq > uniqMax {
+				uniqMax = row.uniq
+			}
+			uniqItems += row.uniqItems
+			if row.maxCount != row.count {
+				fail("aggregates", name+":count", "row %s: count=%v but max_count=%v", k, row.count, row.maxCount)
+			}
+		}
+		if count != e.count {
+			fail("aggregates", name+":count", "key %s: count=%v (%d row(s)), merge of contributions gives %v", k, count, len(rs), e.count)
 		}
 		if e.valueSet {
-			if row.min != e.min || row.max != e.max || row.sum != e.sum || row.sumsq != e.sumsq {
-				fail("aggregates", name+":value", "row %s: min/max/sum/sumsq = %v/%v/%v/%v, merge of contributions gives %v/%v/%v/%v", k, row.min, row.max, row.sum, row.sumsq, e.min, e.max, e.sum, e.sumsq)
+			if min != e.min || max != e.max || sum != e.sum || sumsq != e.sumsq {
+				fail("aggregates", name+":value", "key %s: min/max/sum/sumsq = %v/%v/%v/%v (%d row(s)), merge of contributions gives %v/%v/%v/%v", k, min, max, sum, sumsq, len(rs), e.min, e.max, e.sum, e.sumsq)
 			}
-			if h := row.minHost.AsString; !e.hosts[h] || row.minHost.AsInt32 != 0 {
-				fail("hosts", name+":min_host", "row %s: min_host decodes to %q/%d, contributing hosts are %v", k, h, row.minHost.AsInt32, w1SortedSet(e.hosts))
-			}
-			if h := row.maxHost.AsString; !e.hosts[h] || row.maxHost.AsInt32 != 0 {
-				fail("hosts", name+":max_host", "row %s: max_host decodes to %q/%d, contributing hosts are %v", k, h, row.maxHost.AsInt32, w1SortedSet(e.hosts))
-			}
-		} else if row.min != 0 || row.max != 0 || row.sum != 0 || row.sumsq != 0 {
-			fail("aggregates", name+":value", "row %s: counter row carries min/max/sum/sumsq = %v/%v/%v/%v", k, row.min, row.max, row.sum, row.sumsq)
+		} else if min != 0 || max != 0 || sum != 0 || sumsq != 0 {
+			fail("aggregates", name+":value", "key %s: counter row carries min/max/sum/sumsq = %v/%v/%v/%v", k, min, max, sum, sumsq)
 		}
-		if h := row.maxCountHost.AsString; !e.hosts[h] || row.maxCountHost.AsInt32 != 0 {
-			fail("hosts", name+":max_count_host", "row %s: max_count_host decodes to %q/%d, contributing hosts are %v", k, h, row.maxCountHost.AsInt32, w1SortedSet(e.hosts))
+		for _, row := range rs {
+			if e.valueSet {
+				if h := row.minHost.AsString; !e.hosts[h] || row.minHost.AsInt32 != 0 {
+					fail("hosts", name+":min_host", "row %s: min_host decodes to %q/%d, contributing hosts are %v", k, h, row.minHost.AsInt32, w1SortedSet(e.hosts))
+				}
+				if h := row.maxHost.AsString; !e.hosts[h] || row.maxHost.AsInt32 != 0 {
+					fail("hosts", name+":max_host", "row %s: max_host decodes to %q/%d, contributing hosts are %v", k, h, row.maxHost.AsInt32, w1SortedSet(e.hosts))
+				}
+			}
+			if h := row.maxCountHost.AsString; !e.hosts[h] || row.maxCountHost.AsInt32 != 0 {
+				fail("hosts", name+":max_count_host", "row %s: max_count_host decodes to %q/%d, contributing hosts are %v", k, h, row.maxCountHost.AsInt32, w1SortedSet(e.hosts))
+			}
 		}
 		if e.hasUniq {
-			if row.uniq != uint64(len(e.uniq)) {
-				fail("unique", name, "row %s: unique state decodes to %d values (%d items), the merged buckets carried %d distinct values", k, row.uniq, row.uniqItems, len(e.uniq))
+			// one row: exact. Several rows: every part holds a subset, the parts together hold everything.
+			if n := uint64(len(e.uniq)); (len(rs) == 1 && uniqSum != n) || uniqMax > n || uniqSum < n {
+				fail("unique", name, "key %s: unique states decode to %d values in %d row(s) (largest %d, %d items), the merged buckets carried %d distinct values", k, uniqSum, len(rs), uniqMax, uniqItems, n)
 			}
-		} else if row.uniqItems != 0 {
-			fail("unique", name, "row %s: unexpected unique state with %d items", k, row.uniqItems)
+		} else if uniqItems != 0 {
+			fail("unique", name, "key %s: unexpected unique state with %d items", k, uniqItems)
 		}
 		if e.centroids != 0 {
-			if row.centroidWeight != e.count || row.centroidWeight != e.centroids {
-				fail("percentiles", name, "row %s: centroid weights sum to %v, count is %v (wire centroids %v)", k, row.centroidWeight, e.count, e.centroids)
+			if centroidWeight != e.count || centroidWeight != e.centroids {
+				fail("percentiles", name, "key %s: centroid weights sum to %v, count is %v (wire centroids %v)", k, centroidWeight, e.count, e.centroids)
 			}
-		} else if row.centroids != 0 {
-			fail("percentiles", name, "row %s: unexpected %d centroids", k, row.centroids)
+		} else if centroids != 0 {
+			fail("percentiles", name, "key %s: unexpected %d centroids", k, centroids)
 		}
-		w.r.Extra["c03_rows_compared"]++
+		w.r.Extra["c03_rows_compared"] += len(rs)
+		if rs[0].time != 0 && o.rowOlderThanBucket(rs[0].time, ats) {
+			w.r.Probes["c03_row_older_than_every_bucket_of_its_body"]++
+		}
 	}
 	return fails
+}
+
+// rowOlderThanBucket: no agent bucket merged into the body belongs to the row's own second.
+func (o *w1Oracle) rowOlderThanBucket(t uint32, ats []w1AT) bool {
+	for _, at := range ats {
+		if at.T == t {
+			return false
+		}
+	}
+	return true
 }
 
 func w1SortedSet(m map[string]bool) []string {
